@@ -51,3 +51,11 @@ mk("m-c02-truncate-key", {"C02": ["C02.W|"]}, [(B + "mpc/mpc_truncate.rs",
 mk("m-c02-truncate-sender", {"C02": ["C02.W|"]}, [(B + "mpc/mpc_truncate.rs",
    "        res1_sent.add_annotation(NodeAnnotation::Send(1, 0))?;", "        res1_sent.add_annotation(NodeAnnotation::Send(2, 0))?;")],
    "TruncateMPC: the re-masked share is sent by party 2, which does not hold input share 1")
+mk("b-c12-checktype-zip", {"C12": "silent", "C09": "silent"}, [(B + "data_values.rs",
+   "                        if ts.len() != children.len() {\n                            return Ok(false);\n                        }\n                        for i in 0..ts.len() {\n                            if !children[i].check_type((*ts[i]).clone())? {\n                                return Ok(false);\n                            }\n                        }\n                        Ok(true)",
+   "                        let same_len = ts.len() == children.len();\n                        if !same_len {\n                            return Ok(false);\n                        }\n                        for (child, child_type) in children.iter().zip(ts.iter()) {\n                            if !child.check_type((**child_type).clone())? {\n                                return Ok(false);\n                            }\n                        }\n                        Ok(true)")],
+   "benign twin of C12r2-2: zip-based loop that keeps the length equality (let-bound)", kind="benign")
+mk("m-c12-checktype-bytes-le", {"C12": ["C12.T|check_type|Ok(cmp)"]}, [(B + "data_values.rs",
+   "                ValueBody::Bytes(bytes) => Ok(bytes.len() as u64 == (s + 7) / 8),",
+   "                ValueBody::Bytes(bytes) => Ok(bytes.len() as u64 >= (s + 7) / 8),")],
+   "byte arrays longer than the type's size are accepted")
